@@ -27,9 +27,10 @@ from vf.api import Enumerated, Generated, Violation
 PROPERTY = "C44"
 LEVEL = "exploration"
 RULE = (
-    "exh: two sessions that both start with the row loaded, every pair of per-session op sequences over {load, write, write_rb, delete, forget} of length <=2 (thorough: <=3) x EVERY interleaving "
+    "exh: two sessions that both start with the row loaded, every pair of per-session op sequences over {load, write, write_rb, delete, forget, switch} of length <=2 (thorough: <=3) x EVERY interleaving "
     "of the two sequences x both version schemes (integer counter, custom string generator). random: 2-3 sessions, 1-2 rows, sequences of <=5 ops over "
-    "{load, forget, write, write_same, write_rb, write2 (both rows in one flush), delete, insert} and a drawn interleaving. Non-trivial: at some point two "
+    "{load, forget, write, write_same, write_rb, write2 (both rows in one flush), delete, insert, switch (row switch: delete + add of a new object with the same "
+    "primary key in one flush = one versioned UPDATE)} and a drawn interleaving. Non-trivial: at some point two "
     "sessions hold the same row loaded at the same version and both then attempt a write or delete (so exactly one may win), or a write/delete is "
     "attempted from a stale version; distinct = canonical JSON of the case"
 )
@@ -145,6 +146,9 @@ def check_schedule(case, ctx):
             return False
 
         def drop_all(si):
+            # nothing loaded any more: the identity map is emptied too, so the next touch is a fresh load (and a later `insert` of the
+            # same primary key does not collide with a leftover expired instance)
+            sessions[si].expunge_all()
             cache[si].clear()
             objs[si].clear()
 
@@ -160,7 +164,7 @@ def check_schedule(case, ctx):
             where = f"step {step} session {si} {op}(row {rid})"
             classes.add(op)
             # conflict bookkeeping for the non-trivial rule
-            if op in ("write", "write_rb", "delete", "write2"):
+            if op in ("write", "write_rb", "delete", "write2", "switch"):
                 c = cache[si].get(rid)
                 if c is not None:
                     if sum(1 for sj in range(len(seqs)) if cache[sj].get(rid) == c) >= 2 or rid not in db or db[rid][1] != c[1]:
@@ -246,6 +250,46 @@ def check_schedule(case, ctx):
                     del db[rid]
                     cache[si].pop(rid)
                     objs[si].pop(rid)
+            elif op == "switch":
+                # row switch: delete the loaded object and add a NEW object with the same primary key in ONE flush.  The unit of work turns
+                # the pair into a single UPDATE on behalf of the pending object (persistence._organize_states_for_save "detected row
+                # switch"; test/orm/test_versioning.py RowSwitchTest / AlternateGeneratorTest): it is matched on the version the deleted
+                # object was loaded at and stores generator(that version) - i.e. a versioned write.
+                ensure_loaded(si, rid)
+                if rid not in cache[si]:
+                    sess.commit()
+                    classes.add("switch-on-missing-row")
+                    continue
+                newv = 300 + step
+                old = objs[si][rid]
+                new = cls(id=rid, val=newv)
+                sess.delete(old)
+                sess.add(new)
+                stale = is_stale(si, rid)
+                try:
+                    sess.flush()
+                    got = None
+                except StaleDataError:
+                    got = "StaleDataError"
+                if stale:
+                    if got != "StaleDataError":
+                        raise Violation("C44/switch/lost-update-not-detected", f"{where}: session loaded {cache[si][rid]} but table has {db.get(rid)}; row-switch flush succeeded",
+                                        observed="flush ok", expected="StaleDataError")
+                    sess.rollback()
+                    sess.expunge_all()
+                    drop_all(si)
+                    classes.add("stale-detected")
+                else:
+                    if got is not None:
+                        raise Violation("C44/switch/spurious-stale", f"{where}: loaded version is current ({cache[si][rid]}) but the row-switch flush raised StaleDataError")
+                    sess.commit()
+                    db[rid] = (newv, gen(cache[si][rid][1]))
+                    cache[si][rid] = db[rid]
+                    objs[si][rid] = new
+                    classes.add("row-switch-done")
+                    if (new.__dict__.get("val"), new.__dict__.get("ver")) != db[rid]:
+                        raise Violation("C44/switch/in-memory-version", f"{where}: after the row switch the new object holds {(new.__dict__.get('val'), new.__dict__.get('ver'))}, "
+                                        f"expected {db[rid]} (version must be generator(loaded version))", observed=[new.__dict__.get("val"), new.__dict__.get("ver")], expected=list(db[rid]))
             elif op == "insert":
                 if rid in cache[si]:
                     sess.commit()
@@ -285,7 +329,7 @@ def check_schedule(case, ctx):
 
 
 # ------------------------------------------------------------------ exhaustive interleavings
-_EXH_ALPHA = ["load", "write", "write_rb", "delete", "forget"]
+_EXH_ALPHA = ["load", "write", "write_rb", "delete", "forget", "switch"]
 
 
 def _all_interleavings(n0, n1):
@@ -313,7 +357,7 @@ def _exh_cases(tier):
 
 
 # ------------------------------------------------------------------ random schedules
-_R_OPS = ["load", "load", "forget", "write", "write", "write_same", "write_rb", "write2", "delete", "insert"]
+_R_OPS = ["load", "load", "forget", "write", "write", "write_same", "write_rb", "write2", "delete", "insert", "switch", "switch"]
 
 
 @st.composite
@@ -330,6 +374,6 @@ def _schedules(draw):
 
 def subs(tier):
     return [
-        Enumerated("exh", check_schedule, cases=_exh_cases),
+        Enumerated("exh", check_schedule, cases=_exh_cases, budget_s_quick=90.0),
         Generated("random", check_schedule, strategy=_schedules(), quick=400, thorough=30000),
     ]
